@@ -499,7 +499,7 @@ func runC21(c *Ctx) {
 				pathEdgeFilter = nil
 				c.check(dominatesInstr(elem.Instr, size.Instr) && !reach, "C21.array-size", "size grows only after the element was stored", size.Pos(), "Set == nil → size.Set", "the size is raised although the element store failed or has not happened ("+traceString(tr)+")")
 				for _, e := range successAlts(put) {
-					tr, reach := pathAvoiding(put, nil, isInstr(e.Ret), isInstr(size.Instr))
+					tr, reach := pathToExit(put, nil, e, isInstr(size.Instr))
 					c.check(!reach, "C21.array-size", "Put succeeds only with the size raised", e.pos(), "no bypass", "Put can succeed without raising the size ("+traceString(tr)+")")
 				}
 			}
